@@ -24,7 +24,7 @@ func init() {
 }
 
 func runC10(c *core.Ctx) {
-	ruleCryptoConstants(c)
+	ruleCryptoConstants(c, "C10-R1")
 	ruleEncryptDictTables(c)
 	ruleKeyForRefLayout(c)
 	ruleIVProvenance(c)
@@ -125,8 +125,7 @@ func bodyCalls(info *types.Info, s ast.Stmt, suffix string) bool {
 	return found
 }
 
-func ruleCryptoConstants(c *core.Ctx) {
-	const rule = "C10-R1"
+func ruleCryptoConstants(c *core.Ctx, rule string) {
 	// 50 MD5 rounds
 	for _, name := range []string{"computeFileEncyptionKey", "computeO", "authenticateOwner"} {
 		name := name
